@@ -217,7 +217,7 @@ def r_rule_params_eval(root):
                 occurs, carriage return iff \\r, tab iff \\t, blank iff a blank occurs; without a backslash the string itself."""
     from sa import pyeval
     out = []; inst = 0
-    fn = find(load(root, L), "TextXVisitor.visit_rule_params")
+    fn = find_i(root, L, "TextXVisitor.visit_rule_params")
     STR = ["", " ", "a", "\\n", "\\r", "\\t", "\\r\\n", "\\n\\r", " \\t\\r\\n", "\\t ", "\\n "]
     for name in ("skipws", "ws", "split", "other"):
         for value in [True, False] + STR:
